@@ -105,6 +105,9 @@ class Position
 
     std::string san_without_check(Move move) const;
 
+    // index of the oldest history entry that can equal the current position
+    int oldest_repeatable() const;
+
     Color _current_side;
 
     uint8_t _half_move_counter;
